@@ -21,7 +21,7 @@ def sample_cases(draw, tier="quick"):
     if kind == "par":
         d = draw(st.integers(1, 6))
         raw = draw(gen.mat(d, N))
-        geom = draw(st.sampled_from(["none", "cont1d", "discrete", "mapped_exp", "mapped_exp"]))
+        geom = draw(st.sampled_from(["none", "cont1d", "discrete", "mapped_exp", "mapped_exp", "mapped_coupled"]))
         c = {"kind": kind, "raw": raw, "geom": geom,
              # an integer-typed sample array (counts, integer draws)
              "int_raw": draw(st.sampled_from([False, False, True]))}
@@ -41,7 +41,9 @@ def sample_cases(draw, tier="quick"):
     c["layout"] = draw(st.sampled_from(gen.LAYOUTS))
     # chains on a large base line (2^27 ~ 1.3e8 plus O(1) fluctuations: time stamps, energies): one-pass formulas such as
     # E[x^2] - E[x]^2 lose every digit there, numpy's two-pass statistics do not
-    c["offset"] = draw(st.sampled_from([0.0, 0.0, 0.0, 2.0 ** 27])) if (kind != "par" or (c.get("geom") != "mapped_exp" and not c.get("int_raw"))) else 0.0
+    # a chain that moves in tiny steps (a well-mixed sampler with a small proposal scale): consecutive states differ by 1e-7
+    c["tiny_steps"] = draw(st.sampled_from([False, False, False, True])) if kind == "par" and not c.get("int_raw") else False
+    c["offset"] = draw(st.sampled_from([0.0, 0.0, 0.0, 2.0 ** 27])) if (kind != "par" or (c.get("geom") not in ("mapped_exp", "mapped_coupled") and not c.get("int_raw"))) else 0.0
     c["percent"] = draw(st.sampled_from([95, 50, 99, 68.3, 0, 100, 10]))
     c["ops"] = draw(st.lists(st.one_of(
         st.tuples(st.just("burnthin"), st.integers(0, 6), st.integers(1, 4)),
@@ -55,10 +57,14 @@ def sample_cases(draw, tier="quick"):
 def build(c):
     import cuqi
     raw = np.array(c["raw"], dtype=float) + float(c.get("offset", 0.0))
+    if c.get("tiny_steps"):
+        raw = 1.0 + 1e-7 * raw
     if c["kind"] == "par":
         d = raw.shape[0]
         G = {"none": None, "cont1d": cuqi.geometry.Continuous1D(d), "discrete": cuqi.geometry.Discrete(d),
-             "mapped_exp": cuqi.geometry.MappedGeometry(cuqi.geometry.Continuous1D(d), map=lambda v: np.exp(0.3 * v), imap=lambda w: np.log(w) / 0.3)}[c["geom"]]
+             "mapped_exp": cuqi.geometry.MappedGeometry(cuqi.geometry.Continuous1D(d), map=lambda v: np.exp(0.3 * v), imap=lambda w: np.log(w) / 0.3),
+             # a map that couples the values of one function (it is written for one function at a time)
+             "mapped_coupled": cuqi.geometry.MappedGeometry(cuqi.geometry.Continuous1D(d), map=gen.MAPS["unitball"][0], imap=gen.MAPS["unitball"][1])}[c["geom"]]
         arr = raw.astype(int) if c.get("int_raw") else gen.relayout(raw, c.get("layout", "plain"))
         return raw, cuqi.samples.Samples(arr, geometry=G), G
     if c["kind"] == "image_par":
